@@ -299,6 +299,60 @@ def run(rep: Report, tier: str) -> None:  # noqa: C901
     if gotb != want:
         rep.add(transp.fnd("R07.7", "check/structure", fbv, fbv.node.lineno,
                            f"check(DS_b): semantic analysis declares {want} but the transpiler's structure of the intermediate result is {gotb}"))
+    # ---- R07.8 dependency-sorting a hierarchical ruleset only re-orders its rules ----
+    rep.rule("R07.8", "HRDAGAnalyzer: the list written back to HRuleset.rules is sort_elements(<all rules>): numbering, rules_ast and the sorted list range over the unfiltered ruleset")
+    HRD = "vtlengine.AST.DAG.HRDAGAnalyzer"
+    shr, vhr = P.func(f"{HRD}.sort_hr_rules"), P.func(f"{HRD}.visit_HRuleset")
+
+    def _filtered(e: ast.AST) -> Optional[str]:
+        for x in ast.walk(e):
+            if isinstance(x, (ast.ListComp, ast.GeneratorExp, ast.SetComp)) and any(g.ifs for g in x.generators):
+                return src(x)[:80]
+            if isinstance(x, ast.Call) and getattr(x.func, "id", "") == "filter":
+                return src(x)[:80]
+        return None
+    stores = [n for n in walk_no_nested(shr.node) if isinstance(n, ast.Assign) and any(isinstance(t, ast.Attribute) and t.attr == "rules" for t in n.targets)]
+    if not stores:
+        raise AnalysisError("sort_hr_rules no longer writes HRuleset.rules: R07.8 has lost its anchor")
+    # attribute definitions inside the analyzer class: self.<attr> = <expr>
+    attr_defs: Dict[str, List[ast.AST]] = {}
+    for fn_ in (shr, vhr):
+        for n in walk_no_nested(fn_.node):
+            if isinstance(n, ast.Assign):
+                for t in n.targets:
+                    if isinstance(t, ast.Attribute) and isinstance(t.value, ast.Name) and t.value.id in ("self", "dag"):
+                        attr_defs.setdefault(t.attr, []).append(n.value)
+    for st in stores:
+        v = st.value
+        rep.instance("R07.8", "rules-written-back", sample=src(st)[:100])
+        ok = isinstance(v, ast.Call) and isinstance(v.func, ast.Attribute) and v.func.attr == "sort_elements" and len(v.args) == 1
+        arg = v.args[0] if ok else None
+        why = None
+        if not ok:
+            why = f"`{src(v)[:60]}` is not sort_elements(<rules>)"
+        else:
+            exprs = [arg]
+            if isinstance(arg, ast.Attribute) and arg.attr in attr_defs and arg.attr != "rules":
+                exprs = attr_defs[arg.attr]
+            for e_ in exprs:
+                flt = _filtered(e_)
+                if flt:
+                    why = f"the sorted list is `{src(arg)}` = `{flt}`: a filtered copy of the rules"
+                elif not any(isinstance(x, ast.Attribute) and x.attr == "rules" for x in ast.walk(e_)):
+                    why = f"the sorted list `{src(e_)[:60]}` does not derive from node.rules"
+        if why:
+            rep.add(transp.fnd("R07.8", "rules-written-back", shr, st.lineno,
+                               f"sort_hr_rules writes back to HRuleset.rules a list that is not a re-ordering of all its rules ({why}): check_hierarchy evaluates that list, so the rules left out "
+                               f"(comparison rules such as `D >= E`) silently stop being validated"))
+    for n in walk_no_nested(vhr.node):
+        if isinstance(n, ast.For) and any(isinstance(x, ast.Attribute) and x.attr in ("rules", "rules_ast") for x in ast.walk(n.iter)):
+            exprs = attr_defs.get(n.iter.attr, [n.iter]) if isinstance(n.iter, ast.Attribute) and n.iter.attr == "rules_ast" else [n.iter]
+            rep.instance("R07.8", "numbering-loop", sample=src(n.iter))
+            for e_ in exprs:
+                flt = _filtered(e_)
+                if flt:
+                    rep.add(transp.fnd("R07.8", "numbering-loop", vhr, n.lineno,
+                                       f"visit_HRuleset numbers only a filtered subset of the rules (`{flt}`): sort_elements indexes the rule list by these numbers, so the other rules are dropped or mis-ordered"))
     rep.assumptions = ["SQL three-valued logic (Kleene) for AND/OR/NOT, IS [NOT] FALSE, CASE", "the pivot column naming helpers _has_col / _val_col are the only producers of those names"]
 
 
